@@ -349,7 +349,7 @@ func runC09(c *Ctx) {
 	}
 	// ---- stored sub-package parts are the Body slices of delivered messages: nobody may write into them
 	{
-		R.Rules["E4.stored-parts"] = "the part table of a sub-packaged transfer keeps the Body slices of messages that were handed to callbacks (no copy); therefore no code may write bytes in place into a slice taken from that table (clear, copy, element store, Read)"
+		R.Rules["E4.stored-parts"] = "the part table of a sub-packaged transfer keeps the Body slices of messages that were handed to callbacks (no copy); therefore no code may write bytes in place into a slice taken from that table (clear, copy, element store, Read, append with such a slice as the operand that is grown)"
 		kept := ""
 		for _, fn := range c.RepoFuncs("service") {
 			for _, b := range fn.Blocks {
@@ -399,6 +399,12 @@ func runC09(c *Ctx) {
 									}
 								case "copy":
 									target, what = x.Call.Args[0], "copy into"
+								case "append":
+									// append writes into the spare capacity behind its first operand when the operand has room:
+									// behind a Body slice lie the checksum and the closing delimiter of the delivered raw frame
+									if k, isK := x.Call.Args[0].(*ssa.Const); !isK || !k.IsNil() {
+										target, what = x.Call.Args[0], "append to (in-place growth into the spare capacity behind)"
+									}
 								}
 							} else if nm, _ := callMethodName(x); nm == "Read" && len(x.Call.Args) > 0 {
 								target, what = x.Call.Args[len(x.Call.Args)-1], "Read into"
